@@ -1583,3 +1583,66 @@ Proof.
   split; [apply nodupb_sound; vm_compute; reflexivity|].
   intros k Hk. cbn [map fst In] in Hk. repeat (destruct Hk as [<-|Hk]; [vm_compute; reflexivity|]). destruct Hk.
 Qed.
+
+(* ---------- bufferedBody: every attempt reads the client's body from its first byte ---------- *)
+Lemma attempt_reads_from_start : forall data ks off,
+  attempt_reads {| bb_data := data; bb_off := off |} ks = map (prefix_asked data) ks.
+Proof.
+  intros data ks. induction ks as [|k r IH]; intros off; [reflexivity|].
+  unfold attempt_reads in *. simpl. rewrite IH. reflexivity.
+Qed.
+
+Lemma rewind_only_when_drained_differs :
+  exists data ks, attempt_reads_with bb_rewind_if_drained {| bb_data := data; bb_off := 0 |} ks <> map (prefix_asked data) ks.
+Proof. exists [1; 2; 3], [Some 1%nat; None]. vm_compute. discriminate. Qed.
+
+(* such a rewind is only right for attempts that read nothing or everything *)
+Lemma rewind_if_drained_ends : forall data off, (off = 0 \/ off = length data)%nat ->
+  bb_rewind_if_drained {| bb_data := data; bb_off := off |} = {| bb_data := data; bb_off := 0 |}.
+Proof.
+  intros data off [->| ->]; unfold bb_rewind_if_drained, bb_len; simpl.
+  - destruct (Nat.eqb (length data - 0) 0); reflexivity.
+  - rewrite Nat.sub_diag. reflexivity.
+Qed.
+
+Lemma rewind_only_when_drained_all_or_nothing : forall data n,
+  attempt_reads_with bb_rewind_if_drained {| bb_data := data; bb_off := 0 |} (repeat None n) = repeat data n.
+Proof.
+  intros data n.
+  assert (H : forall off, (off = 0 \/ off = length data)%nat ->
+            attempt_reads_with bb_rewind_if_drained {| bb_data := data; bb_off := off |} (repeat None n) = repeat data n).
+  { induction n as [|n IH]; intros off Hoff; [reflexivity|].
+    cbn [repeat attempt_reads_with]. rewrite (rewind_if_drained_ends data off Hoff).
+    unfold bb_read. cbn [bb_off bb_data skipn]. rewrite IH; [reflexivity|right; reflexivity]. }
+  apply H. left. reflexivity.
+Qed.
+
+Lemma pat_range_firstn : forall salt n start k,
+  firstn k (pat_range salt start n) = pat_range salt start (Nat.min k n).
+Proof.
+  intros salt n. induction n as [|n IH]; intros start k.
+  - rewrite Nat.min_0_r. destruct k; reflexivity.
+  - destruct k as [|k]; [reflexivity|]. simpl. rewrite IH. reflexivity.
+Qed.
+
+Lemma pat_prefix : forall salt len k,
+  firstn k (pat salt len) = pat salt (N.min (N.of_nat k) len).
+Proof.
+  intros salt len k. unfold pat. rewrite pat_range_firstn. f_equal. lia.
+Qed.
+
+Lemma retry_reads_pattern : forall salt len ks off,
+  attempt_reads {| bb_data := pat salt len; bb_off := off |} ks =
+  map (fun k => match k with Some n => pat salt (N.min (N.of_nat n) len) | None => pat salt len end) ks.
+Proof.
+  intros salt len ks off. rewrite attempt_reads_from_start. apply map_ext. intros [n|]; simpl; [apply pat_prefix|reflexivity].
+Qed.
+
+(* ---------- header_downstream runs on the response AFTER the hop-by-hop removal ---------- *)
+Lemma down_rules_after_hop_removal : forall e live rules res h k,
+  is_hop_for h k = true ->
+  hlookup (mutate_headers e live rules res (resp_strip h)) k =
+  fold_left vop_apply (vops_for (subst_of e live) rules k ++ revops_for (subst_of e live) res k) None.
+Proof.
+  intros e live rules res h k Hk. rewrite mutate_headers_lookup. rewrite (resp_is_hop_for_removed h k Hk). reflexivity.
+Qed.
